@@ -1,10 +1,12 @@
 package vpg
 
 import (
+	"encoding/json"
 	"errors"
 	"os"
 	"path/filepath"
 	"reflect"
+	"regexp"
 	"strings"
 	"testing"
 
@@ -109,7 +111,7 @@ func TestRecursionAndUndefined(t *testing.T) {
 
 func TestDocuments(t *testing.T) {
 	s := mustParse(t, fn("f", `BEGIN RETURN TRUE; END;`))
-	for _, bad := range []any{1, 1.5, []string{"a"}, []any{map[string]int{}}} {
+	for _, bad := range []any{1, 1.5, []string{"a"}, []any{map[string]int{}}, json.Number("abc"), json.Number("01"), json.Number("1."), json.Number("1e"), json.Number("+1")} {
 		if _, err := s.Call("f", bad); err == nil || outcome(Null, err)[:3] != "E:?" {
 			t.Errorf("document %#v: got %v, want a usage error", bad, err)
 		}
@@ -180,6 +182,8 @@ func TestParseFailures(t *testing.T) {
 		{strings.Replace(fn("f", `BEGIN RETURN TRUE; END;`), "data jsonb", "a jsonb, b jsonb", 1), `, b jsonb`},
 		{strings.Replace(fn("f", `BEGIN RETURN TRUE; END;`), "IMMUTABLE;", "IMMUTABLE", 1), `unterminated`},
 		{fn("f", `BEGIN RETURN TRUE; END;`) + "/* open", `unterminated`},
+		{strings.Replace(fn("f", `BEGIN RETURN TRUE; END;`), "CREATE OR", "CREATE", 1), `CREATE REPLACE FUNCTION`},
+		{"DO $$ BEGIN NULL; END $$;", `DO $$`},
 	} {
 		s, err := ParseScript(c.sql)
 		if err == nil {
@@ -394,4 +398,40 @@ func TestPgFormattedScript(t *testing.T) {
 		t.Errorf("Checks = %+v", s.Checks)
 	}
 	checkPage(t, s, s.Checks[1].Func, true)
+}
+
+// Every truncation and every single-token deletion of the generated script
+// must be either refused or interpreted: never a panic, whatever the document.
+func TestMutatedScriptsDoNotPanic(t *testing.T) {
+	text, err := os.ReadFile("testdata/create_pgformat.sql")
+	if err != nil {
+		t.Fatal(err)
+	}
+	src := string(text)[strings.Index(string(text), "CREATE OR REPLACE FUNCTION"):]
+	words := regexp.MustCompile(`\S+|\n`).FindAllString(src, -1) // line ends kept: they close the -- comments
+	docs := []any{SQLNull, nil, js(t, `[]`), js(t, `{}`), js(t, `{"Kind":"ConcretType1","Data":{"V":"x"}}`), js(t, validPage)}
+	accepted := 0
+	try := func(sql string) {
+		s, err := ParseScript(sql)
+		if err != nil {
+			return
+		}
+		accepted++
+		for name := range s.Funcs {
+			for _, d := range docs {
+				s.Call(name, d)
+			}
+		}
+		s.UndefinedCalls()
+	}
+	for i := range words {
+		try(strings.Join(append(append([]string{}, words[:i]...), words[i+1:]...), " "))
+		if i%7 == 0 {
+			try(strings.Join(words[:i], " "))
+		}
+	}
+	if accepted == 0 || accepted == len(words) {
+		t.Errorf("%d of %d mutants accepted", accepted, len(words))
+	}
+	t.Logf("%d of %d single-word deletions still parse", accepted, len(words))
 }
